@@ -272,7 +272,7 @@ func genStoreOps(r *rand.Rand, n int, mutate bool) []string {
 			if nrun == 0 || r.Intn(3) == 0 {
 				nrun++
 				run = nrun
-				runOwner[run] = [2]int{1 + r.Intn(2), 1 + r.Intn(2)}
+				runOwner[run] = [2]int{1 + r.Intn(2), fidPool[r.Intn(len(fidPool))]}
 			} else {
 				run = 1 + r.Intn(nrun)
 			}
@@ -286,7 +286,7 @@ func genStoreOps(r *rand.Rand, n int, mutate bool) []string {
 				kind = "SB" // Store whose outbox entry cannot be encoded: fails, nothing stored
 				mut = 0
 			}
-			ops = append(ops, fmt.Sprintf("%s.%d.%d.%d.%d.%d.%d.%d.%d.%d", kind, o[0], o[1], run, 1+r.Intn(7), 1+r.Intn(3), r.Intn(9), run*10, 1+r.Intn(5), mut))
+			ops = append(ops, fmt.Sprintf("%s.%d.%d.%d.%d.%d.%d.%d.%d.%d", kind, o[0], o[1], run, 1+r.Intn(7), statusPool[r.Intn(len(statusPool))], r.Intn(9), run*10, 1+r.Intn(5), mut))
 		case k < 6:
 			m := 0
 			if mutate && r.Intn(2) == 0 {
@@ -298,7 +298,7 @@ func genStoreOps(r *rand.Rand, n int, mutate bool) []string {
 			if mutate && r.Intn(2) == 0 {
 				m = 1
 			}
-			ops = append(ops, fmt.Sprintf("T.%d.%d.%d", 1+r.Intn(2), 1+r.Intn(2), m))
+			ops = append(ops, fmt.Sprintf("T.%d.%d.%d", 1+r.Intn(2), fidPool[r.Intn(len(fidPool))], m))
 		case k < 9:
 			ops = append(ops, fmt.Sprintf("O.%d.%d", 1+r.Intn(2), []int{1, 2, 3, 1000}[r.Intn(4)]))
 		case k < 10:
@@ -310,23 +310,29 @@ func genStoreOps(r *rand.Rand, n int, mutate bool) []string {
 	return ops
 }
 
-func genVals(r *rand.Rand, max int) string {
+// value pools: identifiers and statuses whose decimal forms are suffixes / prefixes of one another (2, 12, 22, 32; 1, 11, 21),
+// so that a filter compared by anything but whole values shows
+var fidPool = []int{1, 2, 11, 21, 12}
+var statusPool = []int{1, 2, 3, 12, 13, 22, 32}
+var statePool = []int{1, 2, 3, 4, 5, 6, 7}
+
+func genVals(r *rand.Rand, pool []int) string {
 	switch r.Intn(4) {
 	case 0, 1:
 		return "-"
 	case 2:
-		return itoa(1 + r.Intn(max))
+		return itoa(pool[r.Intn(len(pool))])
 	}
 	n := 2 + r.Intn(2)
 	var v []string
 	for i := 0; i < n; i++ {
-		v = append(v, itoa(1+r.Intn(max)))
+		v = append(v, itoa(pool[r.Intn(len(pool))]))
 	}
 	return strings.Join(v, ",")
 }
 
 func genListOp(r *rand.Rand) string {
-	return fmt.Sprintf("Q.%d.%d.%d.%d.%s.%s.%s", r.Intn(3), r.Intn(6), []int{0, 1, 2, 3, 5, 30}[r.Intn(6)], r.Intn(2), genVals(r, 2), genVals(r, 3), genVals(r, 7))
+	return fmt.Sprintf("Q.%d.%d.%d.%d.%s.%s.%s", r.Intn(3), r.Intn(6), []int{0, 1, 2, 3, 5, 30}[r.Intn(6)], r.Intn(2), genVals(r, fidPool), genVals(r, statusPool), genVals(r, statePool))
 }
 
 func genMemStore(p *params, emit func(string, bool)) {
